@@ -388,6 +388,11 @@ func (n *Node[T]) Accept(ctx context.Context, block Block) (ExecutedBlock[T], er
 					break
 				}
 			}
+			// The fetched chunk was already verified and added to chunks
+			continue
+		}
+		if err != nil {
+			return ExecutedBlock[T]{}, fmt.Errorf("failed to get chunk referenced in block: %w", err)
 		}
 
 		chunk, err := ParseChunk[T](chunkBytes)
